@@ -1,4 +1,5 @@
 import CobaldVerif.Drive.C04
+import CobaldVerif.Drive.C05
 import CobaldVerif.Drive.C06
 import CobaldVerif.Drive.C07
 import CobaldVerif.Drive.C08
@@ -12,6 +13,7 @@ open Lean
 def dispatch (prop : String) (j : Json) : Except String Json :=
   match prop with
   | "C04" => C04.handle j
+  | "C05" => C05.handle j
   | "C06" => C06.handle j
   | "C07" => C07.handle j
   | "C08" => C08.handle j
